@@ -76,6 +76,10 @@ pub struct Universe {
     /// order): 0 = order of the input, 1 = reversed input, 2 = ascending ids, 3 = descending ids.
     #[serde(default)]
     pub filter_order: u8,
+    /// What kind of iterator `version_sets_in_union` hands out: 0 = exact size hint, 1 = no size
+    /// information at all (`(0, None)`, like `from_fn` / `flat_map` based providers).
+    #[serde(default)]
+    pub union_iter: u8,
 }
 
 /// A problem over a universe.
@@ -208,6 +212,7 @@ impl Universe {
         };
         let mut out = Universe::default();
         out.filter_order = self.filter_order;
+        out.union_iter = self.union_iter;
         // inert fillers
         out.pkgs = (0..size(pk))
             .map(|i| Pkg {
@@ -420,7 +425,22 @@ impl Interner for Prov {
         NameId(self.u.solvs[s.0 as usize].name)
     }
     fn version_sets_in_union(&self, u: VersionSetUnionId) -> impl Iterator<Item = VersionSetId> {
-        self.u.unions[u.0 as usize].clone().into_iter().map(VersionSetId)
+        UnionIter { inner: self.u.unions[u.0 as usize].clone().into_iter(), opaque: self.u.union_iter == 1 }
+    }
+}
+
+/// The members of a union, with or without size information.
+pub struct UnionIter {
+    inner: std::vec::IntoIter<u32>,
+    opaque: bool,
+}
+impl Iterator for UnionIter {
+    type Item = VersionSetId;
+    fn next(&mut self) -> Option<VersionSetId> {
+        self.inner.next().map(VersionSetId)
+    }
+    fn size_hint(&self) -> (usize, Option<usize>) {
+        if self.opaque { (0, None) } else { self.inner.size_hint() }
     }
 }
 
